@@ -159,8 +159,9 @@ def raw_value(state, level_idx, rng, salt=0):
     """state 0 absent, 1 plain, 2 marked"""
     n = 10 + level_idx + 20 * salt
     if state == 1:
-        return rng.choice([n, str(n)])
-    return '%d!' % n
+        # 0 is a defined value like any other (`warmup: 0` switches a lower level's warm-up off)
+        return rng.choice([n, str(n), n, str(n), 0, '0'])
+    return rng.choice(['%d!' % n, '%d!' % n, '%d!' % n, '0!'])
 
 
 def digits3(a):
@@ -331,12 +332,16 @@ def random_configs(ck, batch, n):
         cfg = base_config(ne, ns, nb)
         paths = [(e, s, b) for e in range(ne) for s in range(ns) for b in range(nb)]
         seen = set()
+        bare = set()
         for p in paths:
             for i, d in enumerate(level_dicts(cfg, *p)):
                 if id(d) in seen:
                     continue
                 seen.add(id(d))
                 salt = len(seen)
+                if LEVELS[i] in ('benchmark', 'execution') and rng.random() < 0.4:
+                    bare.add(id(d))      # an entry without any details of its own ({} behaves like a plain name)
+                    continue
                 for k in RAW3:
                     r = rng.random()
                     if r < 0.35:
